@@ -29,9 +29,11 @@ EQ_KEYS = ('nu', 'th')
 GROUPS = ('nn_params',) + EQ_KEYS
 
 
-def occurrences(p):
-    """{group: set of sg flags} over every occurrence of a parameter group in polynomial p"""
+def occurrences(p, by_net=False):
+    """{group: set of sg flags} over every occurrence of a parameter group in polynomial p; with by_net the groups
+    are (network, group) and equation parameters are attributed to the network call they occur in"""
     occ = {}
+    cur = [None]
 
     def leaf(x):
         if isinstance(x, Poly):
@@ -44,10 +46,21 @@ def occurrences(p):
         tag = a[0]
         if tag == 'U':
             nn, eq = a[5]
-            occ.setdefault('nn_params', set()).add(bool(nn.sg))
-            leaf(eq)
+            if by_net:
+                occ.setdefault((a[1], 'nn_params'), set()).add(bool(nn.sg))
+                prev = cur[0]
+                cur[0] = a[1]
+                leaf(eq)
+                cur[0] = prev
+            else:
+                occ.setdefault('nn_params', set()).add(bool(nn.sg))
+                leaf(eq)
         elif tag == 'P':
-            occ.setdefault(a[1], set()).add(bool(a[4]))
+            if by_net:
+                if cur[0] is not None:
+                    occ.setdefault((cur[0], a[1]), set()).add(bool(a[4]))
+            else:
+                occ.setdefault(a[1], set()).add(bool(a[4]))
         elif tag in ('Mean', 'Sum'):
             poly(a[2])
         elif tag in ('Abs', 'Inv'):
@@ -193,3 +206,49 @@ def run(chk):
             return "default masks select nn_params only"
         chk.run("C06.R4", f"jinns.parameters._derivative_keys:{DK[eq_type]}.__post_init__", {"loss": eq_type}, go_default,
                 construct="default derivative keys")
+
+
+    # ---------------- R5: per-unknown terms of system losses
+    from ..lossenv import SystemLoss
+    chk.rule("C06.R5", "in a system loss, the per-unknown terms of unknown k are routed by derivative_keys_dict[k]", floor=3)
+    sys_terms = {'ODE': ('initial_condition', 'observations'),
+                 'statio_PDE': ('norm_loss', 'boundary_loss', 'observations'),
+                 'nonstatio_PDE': ('norm_loss', 'boundary_loss', 'observations', 'initial_condition')}
+    SSITE = {"ODE": "jinns.loss._LossODE:SystemLossODE", "statio_PDE": "jinns.loss._LossPDE:SystemLossPDE",
+             "nonstatio_PDE": "jinns.loss._LossPDE:SystemLossPDE"}
+    for eq_type, sterms in sys_terms.items():
+        dkcls = E.cls(E.mod_dk, DK[eq_type] if eq_type != 'statio_PDE' else 'DerivativeKeysPDEStatio')
+        allt = TERMS[eq_type]
+        patterns = [0, 1] if not thorough else [0, 1, 2, 3]
+        for pat in patterns:
+            cfg = {"loss": eq_type, "pattern": pat}
+
+            def go(eq_type=eq_type, sterms=sterms, dkcls=dkcls, allt=allt, pat=pat):
+                unknowns = ('a', 'b')
+                sel = {}
+                for ui, k in enumerate(unknowns):
+                    for ti, t in enumerate(allt):
+                        for gi, g in enumerate(GROUPS):
+                            sel[(k, t, g)] = bool((ui + ti + gi + pat) % 2) if pat < 2 else bool(((ui * 3 + ti * 5 + gi * 7 + pat) // 2) % 2)
+                dkd = {k: dkcls(**{t: mask_tree({g: sel[(k, t, g)] for g in GROUPS}) for t in allt}) for k in unknowns}
+                conf = tuple(CONF[t] for t in allt)
+                SL = SystemLoss(E, eq_type, 'PINN', unknowns=unknowns, equations=('e1',), terms=conf, eq_keys=EQ_KEYS,
+                                derivative_keys_dict=dkd)
+                total, out = SL.evaluate()
+                n = 0
+                for t in sterms:
+                    occ = occurrences(scalar_of(out[t], t), by_net=True)
+                    for (net, g), flags in occ.items():
+                        if g not in GROUPS or net not in unknowns:
+                            continue
+                        want_sg = not sel[(net, t, g)]
+                        if flags != {want_sg}:
+                            raise Violation(f"{t}/{net}/{g}", f"occurrences of {g} in the {t} term of unknown {net} have "
+                                            f"stop_gradient marks {sorted(flags)}",
+                                            f"all {'behind' if want_sg else 'outside'} stop_gradient (derivative_keys_dict[{net!r}].{t})")
+                        n += 1
+                    for k in unknowns:
+                        if (k, 'nn_params') not in occ:
+                            raise Inconclusive(f"term {t} does not mention network {k}")
+                return f"{n} (unknown, term, group) occurrences routed as specified"
+            chk.run("C06.R5", SSITE[eq_type] + ".__post_init__/evaluate", cfg, go, construct=f"system routing[{eq_type}]")
